@@ -23,15 +23,33 @@ def private_helper(body, keep):
     return f
 
 
+_ANCHORS = {}
+
+
+def module_anchors(path):
+    """every identifier that occurs anywhere in a rule module's source (string literals and regexes included): a callee whose name
+    the module mentions is one of its anchors and stays a call; any other private helper is expanded in place"""
+    if path not in _ANCHORS:
+        try:
+            _ANCHORS[path] = set(re.findall(r"[A-Za-z_][A-Za-z0-9_]*", open(path).read()))
+        except OSError:
+            _ANCHORS[path] = set()
+    return _ANCHORS[path]
+
+
 class MethodView:
-    def __init__(self, ck, rx, crate=None, inline=None, keep=None):
-        """keep: names of callees the rule module anchors on; when given (even empty), every other private helper of the same crate /
-        type is expanded in place first (rules/inline.py), so an extracted helper does not change the verdict"""
+    def __init__(self, ck, rx, crate=None, inline=None, keep="auto"):
+        """keep: names of callees the rule module anchors on; every other private helper of the same crate / type is expanded in
+        place first (rules/inline.py), so an extracted helper does not change the verdict.  "auto" (default): the identifiers the
+        calling rule module mentions; None: no expansion"""
         self.ck = ck
         self.prog = ck.prog
         self.body = ck.prog.one(rx, crate)
         ck.saw(self.body)
         self.expanded = []
+        if keep == "auto":
+            import sys
+            keep = module_anchors(sys._getframe(1).f_globals.get("__file__", ""))
         if keep is not None:
             from . import inline as _inl
             self.body, self.expanded = _inl.expand(ck.prog, self.body, private_helper(self.body, set(keep)))
@@ -135,6 +153,40 @@ class MethodView:
         while isinstance(t, tuple) and t and t[0] == "upd":   # `self` after earlier field stores is still `self`
             t = P.norm(t[2])
         return t == self.param(1)
+
+    def appended_copies(self, recv_pred):
+        """appends of `count` copies of one value to a vector satisfying recv_pred, whatever the idiom:
+             for _ in 0..count { v.push(x) }        v.extend(repeat_with(|| x).take(count))       v.extend(repeat(x).take(count))
+             v.resize(v.len() + count, x) is NOT recognised (fails closed).
+        Returns [{"value", "count", "eff", "bb"}] for the recognised ones and a second list with every other mutator of that vector."""
+        from . import circ
+        out, other = [], []
+        for e in self.effects:
+            nm = e.raw.get("name")
+            if not e.args or not recv_pred(P.norm(e.args[0])) or e.raw.get("trait") == "core::iter::traits::iterator::Iterator":
+                continue
+            if nm == "push" and len(e.args) == 2:
+                lp = circ.loops_of(e)
+                r = circ.range_expr(lp[0]) if len(lp) == 1 else None
+                if r is not None and P.const_of(r[0]) == 0:
+                    out.append({"value": P.norm(e.args[1]), "count": P.norm(r[1]), "eff": e, "bb": [c for c in e.ctrl if c[0] == "loop"][0][3]})
+                    continue
+            if nm == "extend" and len(e.args) == 2 and not circ.loops_of(e):
+                a = P.norm(e.args[1])
+                if isinstance(a, tuple) and a and a[0] == "take":
+                    src, cnt = P.norm(a[1]), P.norm(a[2])
+                    sn = P.call_name(src) or ""
+                    val = None
+                    if sn.endswith("repeat_with") and src[4] and isinstance(src[4][0], tuple) and src[4][0][0] == "closure":
+                        val = P.norm(self.fr.closure_ret(src[4][0], [], site_hint=src[1]))
+                    elif sn.endswith("iter::repeat") or sn.endswith("sources::repeat::repeat"):
+                        val = P.norm(src[4][0])
+                    if val is not None:
+                        out.append({"value": val, "count": cnt, "eff": e, "bb": e.bb})
+                        continue
+            if nm in T.MUTATORS:
+                other.append(e)
+        return out, other
 
     def self_field_writes(self):
         """[(bb, [field names])] of every direct assignment through `self` (own or an expanded helper's)"""
